@@ -90,6 +90,53 @@ pub fn run() {
                 }
                 json!({"send": r.unwrap_or_else(|| "hang".into())})
             },
+            // a receiver that is actively reading a multi-fragment message is killed in the middle of the transfer, again and again
+            // at different moments; the sender (a process with SIGPIPE at its default disposition) must end with a result - never
+            // with a signal, never blocked for ever
+            "drainkill" => {
+                let rounds: u32 = a.get("rounds").map(|s| s.parse().unwrap()).unwrap_or(30);
+                let (mut oks, mut errs, mut signals, mut hangs) = (0, 0, Vec::new(), 0);
+                let data = tagged(1, 0, len); // built once: the sender must be in the middle of its transfer when the receiver dies
+                for round in 0..rounds {
+                    let (tx, rx) = platform::channel().unwrap();
+                    let rpid = unsafe { libc::fork() };
+                    if rpid == 0 {
+                        drop(tx);
+                        loop {
+                            if rx.recv().is_err() {
+                                unsafe { libc::_exit(0) };
+                            }
+                        }
+                    }
+                    let spid = unsafe { libc::fork() };
+                    if spid == 0 {
+                        drop(rx);
+                        unsafe { libc::signal(libc::SIGPIPE, libc::SIG_DFL) };
+                        let code = match tx.send(&data, vec![], vec![]) {
+                            Ok(()) => 10,
+                            Err(_) => 11,
+                        };
+                        unsafe { libc::_exit(code) };
+                    }
+                    drop(tx);
+                    drop(rx);
+                    std::thread::sleep(std::time::Duration::from_micros(300 + (round as u64 * 173) % 6000));
+                    unsafe { libc::kill(rpid, libc::SIGKILL) };
+                    let mut st0 = 0;
+                    unsafe { libc::waitpid(rpid, &mut st0, 0) };
+                    let (st, hung) = wait_child(spid, 10_000);
+                    if hung {
+                        hangs += 1;
+                    } else if libc::WIFSIGNALED(st) {
+                        signals.push(libc::WTERMSIG(st));
+                    } else if libc::WEXITSTATUS(st) == 10 {
+                        oks += 1;
+                    } else {
+                        errs += 1;
+                    }
+                }
+                json!({"rounds": rounds, "ok": oks, "err": errs, "signals": signals, "hangs": hangs})
+            },
             // receiver rx2 travels inside an undelivered message on channel 1; sends to it must succeed
             "transit" => {
                 let (tx1, rx1) = platform::channel().unwrap();
